@@ -9,6 +9,7 @@ import (
 	"time"
 
 	"github.com/vx-labs/mqtt-protocol/packet"
+	"github.com/vx-labs/wasp/v4/wasp/distributed"
 
 	"wv/fw"
 	"wv/kit"
@@ -22,7 +23,7 @@ func init() {
 }
 
 func runC07(c *fw.Ctx) {
-	c.Rule = "(1) store level: seeded Set/Delete histories over prefix-sharing topics (all topics of <=3 levels over {a,b,''} under a mount point) on the real replicated retained store, then Get(filter) for EVERY valid filter of <=4 levels over {a,b,c,+,#,''} compared with the model map filtered by the MQTT matcher; (2) end to end: histories of <=12 retained publishes / clears / subscribes over 5 prefix-sharing topics on a broker node (and subscribes on a second node after the gossip barrier): each new subscription must receive, between its SUBACK and the barrier (own PINGRESP, then a sentinel), exactly one retain-flagged copy per model topic matched by its filter with the latest payload, nothing for cleared topics; a standing subscriber must see the live copies unflagged. distinct = (history, filter); non-trivial = the model holds >=2 topics and the filter matches some but not all"
+	c.Rule = "(1) store level: seeded Set/Delete histories over prefix-sharing topics (all topics of <=3 levels over {a,b,''} under a mount point) on the real replicated retained store, then Get(filter) for EVERY valid filter of <=4 levels over {a,b,c,+,#,''} compared with the model map filtered by the MQTT matcher; plus retained writes alternating between two nodes whose clocks differ by 7 s, each delivered to the other before the next write; (2) end to end: histories of <=12 retained publishes / clears / subscribes over 5 prefix-sharing topics on a broker node (and subscribes on a second node after the gossip barrier): each new subscription must receive, between its SUBACK and the barrier (own PINGRESP, then a sentinel), exactly one retain-flagged copy per model topic matched by its filter with the latest payload, nothing for cleared topics; a standing subscriber must see the live copies unflagged. distinct = (history, filter); non-trivial = the model holds >=2 topics and the filter matches some but not all"
 	c.Assume("one filter per SUBSCRIBE packet; publishes wait for PUBACK (the retained store is updated before the acknowledgement)")
 	workers := runtime.NumCPU()
 	filters := c01Enumerate([]string{"a", "b", "c", "+", "#", ""}, 4, true)
@@ -138,6 +139,61 @@ func runC07(c *fw.Ctx) {
 		}(w)
 	}
 	wg.Wait()
+
+	// ---- store level, two nodes with offset clocks (single goroutine: the clock is a package variable) ----
+	// every write happens on a node that has seen all earlier writes, so the last write must win on both
+	{
+		var tick int64
+		active := 0
+		offsets := []int64{0, 7000000000}
+		restore := distributed.VerifSetClock(func() int64 { tick++; return 1000000 + tick + offsets[active] })
+		nPP := c.Pick(400, 6000)
+		for h := 0; h < nPP; h++ {
+			rg := c.SubRng("c07/pingpong", h)
+			rs := []*kit.Replica{kit.NewReplica(1), kit.NewReplica(2)}
+			m := map[string]string{}
+			trace := []string{}
+			steps := 3 + rg.Intn(8)
+			for i := 0; i < steps; i++ {
+				active = rg.Intn(2)
+				t := []string{"a", "a/b", "b"}[rg.Intn(3)]
+				if rg.Intn(3) > 0 {
+					v := fmt.Sprintf("v%d", i)
+					rs[active].S.Topics().Set(&packet.Publish{Header: &packet.Header{Retain: true}, Topic: []byte("mp/" + t), Payload: []byte(v)})
+					m[t] = v
+					trace = append(trace, fmt.Sprintf("n%d set %s=%s", active+1, t, v))
+				} else {
+					rs[active].S.Topics().Delete([]byte("mp/" + t))
+					delete(m, t)
+					trace = append(trace, fmt.Sprintf("n%d clear %s", active+1, t))
+				}
+				for _, b := range rs[active].Drain() {
+					rs[1-active].Deliver(b)
+				}
+			}
+			for ni, r := range rs {
+				msgs, _ := r.S.Topics().Get([]byte("mp/#"))
+				got := []string{}
+				for _, x := range msgs {
+					got = append(got, strings.TrimPrefix(string(x.Publish.Topic), "mp/")+"="+string(x.Publish.Payload))
+				}
+				want := []string{}
+				for t, v := range m {
+					want = append(want, t+"="+v)
+				}
+				sort.Strings(got)
+				sort.Strings(want)
+				c.Observe("offset_clock_lookups", 1)
+				if strings.Join(got, ";") != strings.Join(want, ";") {
+					c.Violation("store-offset-clocks", fmt.Sprintf("retained writes alternating between two nodes whose clocks differ by 7 s, each delivered to the other before the next (%v): node %d replays %q, the last writes are %q", trace, ni+1, got, want),
+						map[string]interface{}{"history": trace, "node": ni + 1, "observed": got, "expected": want})
+					break
+				}
+			}
+			c.Case(fmt.Sprintf("pingpong|%v", trace), len(m) > 0)
+		}
+		distributed.VerifSetClock(restore)
+	}
 
 	// ---- end to end -------------------------------------------------------------------
 	scen := c.Pick(40, 600)
